@@ -124,6 +124,12 @@ func c19(ctx *core.Ctx) {
 		// one route that can negotiate between two registered representations
 		neg := &t.Svcs[0].Routes[0]
 		neg.Method, neg.Produces, neg.Consumes, neg.Conds, neg.NoCT = "GET", []string{restful.MIME_JSON, restful.MIME_XML}, nil, nil, nil
+		// and one that produces a single representation (whatever the Accept header looks like, the answer must be one and the same)
+		lastSvc := &t.Svcs[len(t.Svcs)-1]
+		neg1 := &lastSvc.Routes[len(lastSvc.Routes)-1]
+		if neg1 != neg {
+			neg1.Method, neg1.Produces, neg1.Consumes, neg1.Conds, neg1.NoCT = "GET", []string{restful.MIME_XML}, nil, nil, nil
+		}
 		t.Fill()
 		ctx.Case(ci, core.JSON(cf)+" table="+core.JSON(t))
 		// the multiset
@@ -149,6 +155,14 @@ func c19(ctx *core.Ctx) {
 				req.Hdr["Origin"] = "http://evil.com"
 			case 4:
 				req.Method = "OPTIONS"
+			case 7:
+				if neg1 != neg {
+					// several registered types inside one Accept value, some behind malformed q-values
+					req = rt.HitReq(r, lastSvc, neg1)
+					req.HasAcc = true
+					req.Accept = r.Pick([]string{"application/xml;q=x,application/json", "application/json;q=high, application/xml;q=y", "application/xml;q=,application/json;q=",
+						"application/json;q=a, application/xml;q=b, text/plain"})
+				}
 			case 6:
 				if cf.Entry == rt.ServeHTTP {
 					req = rt.Req{Method: "GET", Path: "/hwf/" + r.Pick(rt.Literals), Hdr: map[string]string{}, Class: "handle-with-filter"}
